@@ -125,6 +125,14 @@ def run(case, ctx, which):
         spec = build_multimodal(rng, "two")
         spec["dims"][1]["params"]["w"] = float(rng.uniform(0.8, 0.93))
         alpha = 0.3
+    if case["mode"] in ("explicit", "too-small") and int(case["sub"]) % 4 == 1 and not case.get("history"):
+        # units as an input class: the same law (and, through the reference ranges, the same grid) in other units
+        urng = np.random.default_rng(case["sub"])
+        scaled = S.rescale_spec(spec, [float(urng.choice([1e-4, 1e-2, 1e2, 1e4])) for _ in spec["dims"]])
+        if scaled is not None:
+            spec = scaled
+            case = {**case, "spec": scaled}
+            ctx.cls("units", "rescaled")
     model = S.build_virocon(spec)
     ref = S.RefModel(spec)
     d = model.n_dim
